@@ -54,6 +54,9 @@ def items(tier, seed):
             out.append({"k": "getvalues", "a": "m", "ka": ka, "n": n, "to": "km"})
             out.append({"k": "getvalues", "a": "degC", "ka": ka, "n": n, "to": "degF"})
         out.append({"k": "fromscalars", "n": n})
+    for ka in KINDS:
+        for order in (0, 1):
+            out.append({"k": "two_databases", "ka": ka, "order": order, "n": 2})
     for op in ("add", "sub", "mul"):  # zero divisors are outside the claim (A-NP), so no division here
         for ka in KINDS:
             out.append({"k": "op_after_validation", "op": op, "ka": ka, "kb": KINDS[(len(out)) % 3], "n": 2})
@@ -173,6 +176,29 @@ def run(cfg, V):
             r = _apply(cfg["op"], A, B)
             s = [_apply(cfg["op"], Scalar(a, "m"), Scalar(b, "cm")) for a, b in zip(xa, xb)]
             return {"valid": valid, "vals": list(r.GetAbstractValue()), "scalar": [x.GetValue() for x in s], "idx": [A[i] for i in range(2)], "want_idx": xa}
+    if k == "two_databases":
+        # history across databases: the same unit NAME is defined differently in two databases that are current one after the other
+        from barril.units import UnitDatabase
+        from .common import pushed
+
+        def mkdb(joint):
+            db = UnitDatabase()
+            db.AddUnitBase("length", "meters", "m")
+            db.AddUnit("length", "centimeters", "cm", "%f * 100.0", "%f / 100.0")
+            db.AddUnit("length", "pipe joints", "joint", "%%f / %r" % joint, "%%f * %r" % joint)
+            db.AddCategory("length", "length")
+            return db
+
+        res = []
+        xa = [V["a%d" % i] for i in range(2)]
+        for joint in ((9.5, 12.25) if cfg["order"] == 0 else (12.25, 9.5)):
+            with pushed(mkdb(joint)):
+                A = Array(_container(cfg["ka"], xa), "m")
+                B = Array(_container(cfg["ka"], [V["b0"], V["b1"]]), "joint")
+                res.append({"gv": list(A.GetValues("joint")), "gv_s": [Scalar(x, "m").GetValue("joint") for x in xa],
+                            "back": list(B.GetValues("m")), "back_s": [Scalar(x, "joint").GetValue("m") for x in (V["b0"], V["b1"])],
+                            "sum": list((A + B).GetValues()), "sum_s": [(Scalar(a, "m") + Scalar(b, "joint")).GetValue() for a, b in zip(xa, (V["b0"], V["b1"]))]})
+        return {"dbs": res}
     if k == "op_number":
         xa = [V["a%d" % i] for i in range(cfg["n"])]
         kk = V["c0"]
@@ -201,7 +227,13 @@ def run(cfg, V):
         A = _array(cfg["a"], cfg["ka"], xa)
         v = A.GetValues(cfg["to"])
         c = A.CreateCopy(unit=cfg["to"])
-        return {"vals": list(v), "ctype": "ndarray" if isinstance(v, numpy.ndarray) else type(v).__name__, "scalar": [_scalar(cfg["a"], x).GetValue(cfg["to"]) for x in xa],
+        fx = None
+        if cfg["n"] >= 2:
+            from barril.units import FixedArray, ObtainQuantity
+
+            F = FixedArray.CreateWithQuantity(A.GetQuantity(), A.GetAbstractValue(), dimension=cfg["n"])
+            fx = [F.IndexAsScalar(i, ObtainQuantity(cfg["to"], A.GetCategory())).GetValue() for i in range(cfg["n"])] + [F.IndexAsScalar(i).GetValue(cfg["to"]) for i in range(cfg["n"])]
+        return {"fixed_idx": fx, "vals": list(v), "ctype": "ndarray" if isinstance(v, numpy.ndarray) else type(v).__name__, "scalar": [_scalar(cfg["a"], x).GetValue(cfg["to"]) for x in xa],
                 "copy_vals": list(c.GetValues()), "copy_unit": c.GetUnit(), "copy_cat": c.GetCategory(), "cat": A.GetCategory()}
     n = cfg["n"]
     units = ["m", "cm", "km", "ft"]
@@ -261,9 +293,17 @@ def props(cfg, T, obs):
     if k == "aux_int_dtype":
         ok = len(obs["vals"]) == 3 and all(abs(a - b) <= 1e-12 * (abs(a) + abs(b) + 1) for a, b in zip(obs["vals"], obs["want"])) and obs["unit"][0] == obs["unit"][1]
         return [("auxiliary, concrete (not solver-decided): an integer-dtype ndarray operand with a fractional list operand equals the Scalar results", ok)]
+    if k == "two_databases":
+        cs = []
+        for r in obs["dbs"]:
+            for a, b in (("gv", "gv_s"), ("back", "back_s"), ("sum", "sum_s")):
+                cs.append(z3.BoolVal(len(r[a]) == len(r[b]) == 2))
+                cs += [approx(x, y) for x, y in zip(r[a], r[b])]
+        return [("in each of two databases that define the same unit name differently, Array conversions and sums equal the Scalar results of THAT database", z3.And(*cs))]
     if k == "getvalues":
         n = cfg["n"]
-        P = [("GetValues(unit) converts element by element like Scalar.GetValue(unit)", z3.And(*[approx(a, b) for a, b in zip(obs["vals"], obs["scalar"])]) if n else True),
+        P = [("FixedArray.IndexAsScalar(i, quantity) / IndexAsScalar(i).GetValue(unit) equal the Scalar conversions",
+              z3.And(*[approx(a, b) for a, b in zip(obs["fixed_idx"], obs["scalar"] + obs["scalar"])]) if obs["fixed_idx"] is not None else True)] + [("GetValues(unit) converts element by element like Scalar.GetValue(unit)", z3.And(*[approx(a, b) for a, b in zip(obs["vals"], obs["scalar"])]) if n else True),
              ("same length and container kind", len(obs["vals"]) == n and obs["ctype"] == {"numpy": "ndarray"}.get(cfg["ka"], cfg["ka"])),
              ("CreateCopy(unit) carries the converted values, the unit and the category", z3.And(z3.BoolVal(obs["copy_unit"] == cfg["to"] and obs["copy_cat"] == obs["cat"] and len(obs["copy_vals"]) == n),
                                                                                               *[approx(a, b) for a, b in zip(obs["copy_vals"], obs["scalar"])]))]
